@@ -133,8 +133,7 @@ fn guarded<R: Into<i32>>(f: impl FnOnce() -> R) -> i32 {
         Ok(c) => c.into(),
         Err(m) => {
             NPANIC.fetch_add(1, Ordering::Relaxed);
-            let mut g = PANIC_MSG.lock().unwrap();
-            if g.is_none() { *g = Some(m); }
+            *PANIC_MSG.lock().unwrap() = Some(m); // the latest one: it is reported with the event being recorded
             -1
         }
     }
@@ -600,9 +599,11 @@ fn drive_forms(o: &mut Out, seed: u64) {
             Err(m) => o.ev("form", json!({"what": what, "got": [], "want": want, "panic": 1, "msg": m})),
         }
     }
-    // float -> float, u8 -> float, float -> u8, for one standard $S whose transfer function is $TF
+    // float -> float, u8 -> float, float -> u8, for one standard $S whose transfer function is $TF; a panic in a
+    // component-wise reference call (outside the per-form catch) is recorded as an event of its own
     macro_rules! std_forms { ($S:ty, $TF:ty, $name:expr, $F:ty) => {{
         for c in &cols {
+            let done = catch(|| {
             let (r, g, b) = (c[0] as $F, c[1] as $F, c[2] as $F);
             let want: Vec<Value> = [r, g, b].iter().map(|&v| <$TF as IntoLinear<$F, $F>>::into_linear(v).ex()).collect();
             form(o, format!("Rgb<{},{}>::into_linear", $name, <$F as Ex>::NAME),
@@ -618,10 +619,13 @@ fn drive_forms(o: &mut Out, seed: u64) {
                  catch(|| { let e = Rgb::<$S, $F>::from_linear(Rgb::new(r, g, b)); vec![e.red.ex(), e.green.ex(), e.blue.ex()] }), want.clone());
             form(o, format!("Rgb<Linear,{}>::into_encoding<{}>", <$F as Ex>::NAME, $name),
                  catch(|| { let e: Rgb<$S, $F> = Rgb::<Linear<<$S as palette::rgb::RgbStandard>::Space>, $F>::new(r, g, b).into_encoding(); vec![e.red.ex(), e.green.ex(), e.blue.ex()] }), want);
+            });
+            if let Err(m) = done { o.ev("form", json!({"what": format!("{}<{}> float forms", $name, <$F as Ex>::NAME), "got": [], "want": [], "panic": 1, "msg": m})); }
         }
     }}; }
     macro_rules! int_forms { ($S:ty, $TF:ty, $name:expr, $F:ty, $U:ty) => {{
         for c in &cols {
+            let done = catch(|| {
             let (r, g, b) = (c[0] as $F, c[1] as $F, c[2] as $F);
             let want: Vec<Value> = [r, g, b].iter().map(|&v| <$TF as FromLinear<$F, $U>>::from_linear(v).ex()).collect();
             form(o, format!("Rgb<{},{}>::from_linear<{}>", $name, stringify!($U), <$F as Ex>::NAME),
@@ -632,10 +636,13 @@ fn drive_forms(o: &mut Out, seed: u64) {
             let want: Vec<Value> = codes.iter().map(|&k| <$TF as IntoLinear<$F, $U>>::into_linear(k).ex()).collect();
             form(o, format!("Rgb<{},{}>::into_linear<{}>", $name, stringify!($U), <$F as Ex>::NAME),
                  catch(|| { let l = Rgb::<$S, $U>::new(codes[0], codes[1], codes[2]).into_linear::<$F>(); vec![l.red.ex(), l.green.ex(), l.blue.ex()] }), want);
+            });
+            if let Err(m) = done { o.ev("form", json!({"what": format!("{}<{}> integer forms", $name, <$F as Ex>::NAME), "got": [], "want": [], "panic": 1, "msg": m})); }
         }
     }}; }
     macro_rules! luma_forms { ($S:ty, $TF:ty, $name:expr, $F:ty, $U:ty) => {{
         for c in &cols {
+            let done = catch(|| {
             let l = c[1] as $F;
             form(o, format!("Luma<{},{}>::into_linear", $name, <$F as Ex>::NAME),
                  catch(|| vec![Luma::<$S, $F>::new(l).into_linear::<$F>().luma.ex()]), vec![<$TF as IntoLinear<$F, $F>>::into_linear(l).ex()]);
@@ -651,6 +658,8 @@ fn drive_forms(o: &mut Out, seed: u64) {
             form(o, format!("Lumaa<{},{}>::into_linear<{}>", $name, stringify!($U), <$F as Ex>::NAME),
                  catch(|| { let a = Lumaa::<$S, $U>::new(k, k).into_linear::<$F, $U>(); vec![a.luma.ex(), a.alpha.ex()] }),
                  vec![<$TF as IntoLinear<$F, $U>>::into_linear(k).ex(), k.ex()]);
+            });
+            if let Err(m) = done { o.ev("form", json!({"what": format!("{}<{}> luma forms", $name, <$F as Ex>::NAME), "got": [], "want": [], "panic": 1, "msg": m})); }
         }
     }}; }
     macro_rules! all8 { ($S:ty, $TF:ty, $name:expr) => {
